@@ -854,8 +854,14 @@ func (c *Ctx) consistentBatches() {
 	})
 	gm := equalIs("appendMode vs appendBlockAndFilter", modeCmps, true)
 	var badW []string
+	// (the mode does not change on the way: every test of it has the same
+	// outcome as the one the path started from)
+	modeFacts := map[ssa.Value]bool{}
+	for _, mc := range modeCmps {
+		modeFacts[mc.(ssa.Value)] = true
+	}
 	for _, st := range c.successEdges(gm) {
-		ir.WalkCtx(st.b, st.idx, st.pred, nil, func(in ssa.Instruction) bool {
+		ir.WalkFacts(st.b, st.idx, st.pred, nil, modeFacts, func(in ssa.Instruction) bool {
 			if callTo(setLast)(in) {
 				return false
 			}
